@@ -295,12 +295,18 @@ const fsHeader = "//go:build cff\n// +build cff\n\npackage fsp\n\nimport (\n\t\"
 var fsFiles = map[string]string{
 	"a.go":      fsHeader + "// A runs a flow.\nfunc A(ctx context.Context) (int, error) {\n\tvar x int\n\terr := cff.Flow(ctx, cff.Results(&x), cff.Task(func() int { return 1 }))\n\treturn x, err\n}\n",
 	"b.v2.go":   fsHeader + "// B runs a parallel.\nfunc B(ctx context.Context) error {\n\treturn cff.Parallel(ctx, cff.Task(func() {}), cff.Slice(func(i int, s string) {}, []string{\"x\"}))\n}\n",
+	"xa.go":     fsHeader + "// XA lives in a file whose name ends in a.go.\nfunc XA(ctx context.Context) (string, error) {\n\tvar x string\n\terr := cff.Flow(ctx, cff.Results(&x), cff.Task(func() string { return \"xa\" }))\n\treturn x, err\n}\n",
 	"c.go":      "//go:build cff\n// +build cff\n\npackage fsp\n\n// C has the tag but no directive.\nfunc C() int { return 3 }\n",
-	"d_test.go": "//go:build cff\n// +build cff\n\npackage fsp\n\nimport (\n\t\"context\"\n\t\"testing\"\n\n\t\"go.uber.org/cff\"\n)\n\nfunc TestD(t *testing.T) {\n\tvar x string\n\tif err := cff.Flow(context.Background(), cff.Results(&x), cff.Task(func() string { return \"d\" })); err != nil {\n\t\tt.Fatal(err)\n\t}\n}\n",
+	"d_test.go": "//go:build cff\n// +build cff\n\npackage fsp\n\nimport (\n\t\"context\"\n\t\"testing\"\n\n\t\"go.uber.org/cff\"\n)\n\n// debug is a test helper whose name equals that of a package the generated code imports.\nfunc debug(args ...any) {}\n\nfunc TestD(t *testing.T) {\n\tvar x string\n\tif err := cff.Flow(context.Background(), cff.Results(&x), cff.Task(func() string { return \"d\" })); err != nil {\n\t\tt.Fatal(err)\n\t}\n}\n",
 	"e.go":      "package fsp\n\n// E is an ordinary file without the cff tag.\nfunc E() int { return 5 }\n",
 }
 
-var fsHasDirective = map[string]bool{"a.go": true, "b.v2.go": true, "d_test.go": true}
+var fsHasDirective = map[string]bool{"a.go": true, "b.v2.go": true, "d_test.go": true, "xa.go": true}
+
+// second package of the module, with the same file base name as the first
+var fsOther = map[string]string{
+	"a.go": strings.Replace(fsHeader, "package fsp", "package fsq", 1) + "// A of the other package.\nfunc A(ctx context.Context) (int, error) {\n\tvar x int\n\terr := cff.Flow(ctx, cff.Results(&x), cff.Task(func() int { return 2 }))\n\treturn x, err\n}\n",
+}
 
 func defaultOut(name string) string {
 	if strings.HasSuffix(name, "_test.go") {
@@ -346,6 +352,9 @@ func (r *fsRun) exec(cffBin, root, repo string) {
 	writeGoMod(root, repo)
 	for n, c := range fsFiles {
 		writeFile(filepath.Join(root, "fsp", n), c)
+	}
+	for n, c := range fsOther {
+		writeFile(filepath.Join(root, "fsq", n), c)
 	}
 	os.MkdirAll(filepath.Join(root, "outdir"), 0o755)
 	tmp := root + "-tmp"
@@ -401,12 +410,19 @@ func fileSetRuns(modes []string) []*fsRun {
 	var runs []*fsRun
 	for _, mode := range modes {
 		whole := &fsRun{Desc: "whole package", Mode: mode, Args: cffArgs(mode, "./fsp"), Allowed: map[string]string{}, Default: true}
-		for _, n := range names {
+		for _, n := range append(append([]string{}, names...), "xa.go") {
 			if fsHasDirective[n] {
 				whole.Allowed[filepath.Join("fsp", defaultOut(n))] = n
 			}
 		}
 		runs = append(runs, whole)
+		// one invocation covering both packages of the module (same file base names in both)
+		all := &fsRun{Desc: "all packages (./...)", Mode: mode, Args: cffArgs(mode, "./..."), Allowed: map[string]string{}, Default: true}
+		for p, src := range whole.Allowed {
+			all.Allowed[p] = src
+		}
+		all.Allowed[filepath.Join("fsq", "a_gen.go")] = "fsq/a.go"
+		runs = append(runs, all)
 		for m := 1; m < 1<<len(names); m++ {
 			var sub []string
 			for i, n := range names {
